@@ -419,16 +419,23 @@ template <typename View, typename Value>
 BOOST_FORCEINLINE
 void fill_pixels(View const& view, Value const& value)
 {
+    // The per-channel fill works on planar_pixel_iterator itself. Planar views whose x iterator is an adaptor over it
+    // (subsampled, transposed, rotated views) are filled pixel by pixel.
+    using per_channel_fill = std::integral_constant
+        <
+            bool,
+            is_planar<View>::value && !is_iterator_adaptor<typename View::x_iterator>::value
+        >;
     if (view.is_1d_traversable())
     {
         detail::fill_aux(
-            view.begin().x(), view.end().x(), value, is_planar<View>());
+            view.begin().x(), view.end().x(), value, per_channel_fill());
     }
     else
     {
         for (std::ptrdiff_t y = 0; y < view.height(); ++y)
             detail::fill_aux(
-                view.row_begin(y), view.row_end(y), value, is_planar<View>());
+                view.row_begin(y), view.row_end(y), value, per_channel_fill());
     }
 }
 
